@@ -194,6 +194,9 @@ func (fv *FuncVC) bindLocals(env *Env, at *ssa.BasicBlock, st *State) {
 				if !ok || id.Name != src {
 					continue
 				}
+				if v, isVar := d.Object().(*types.Var); !isVar || v.IsField() {
+					continue // a field selector c.data, not the local variable
+				}
 				if d.IsAddr {
 					cell = d.X
 					continue
@@ -513,7 +516,7 @@ func (fv *FuncVC) instr(ins ssa.Instruction) {
 		case *types.Slice:
 			s := fv.val(x.X)
 			fv.oblige("bounds", "bounds", panicProps, and(app("<=", "0", idx), app("<", idx, app("s_len", s))), x.Pos(), fmt.Sprintf("index %s in range of %s", x.Index.Name(), x.X.Name()))
-			fv.addrs[x] = &Addr{elem: true, heap: e.elemHeap(u.Elem()), id: app("s_arr", s), idx: app("+", app("s_off", s), idx), baseT: u.Elem(), ty: u.Elem()}
+			fv.addrs[x] = &Addr{elem: true, heap: e.elemHeap(u.Elem()), id: app("s_arr", s), idx: app("idx", s, idx), baseT: u.Elem(), ty: u.Elem()}
 		case *types.Pointer:
 			arr := u.Elem().Underlying().(*types.Array)
 			fv.oblige("bounds", "bounds", panicProps, and(app("<=", "0", idx), app("<", idx, intLit(arr.Len()))), x.Pos(), fmt.Sprintf("index %s in range of array", x.Index.Name()))
@@ -792,7 +795,9 @@ func (fv *FuncVC) convert(x *ssa.Convert) Term {
 		}
 		return fv.wrap(v, to)
 	case isInt(from) && isFloat(to):
-		return app("(_ to_fp 11 53)", "RNE", app("to_real", v))
+		e.decl("fn:i2f", "(declare-fun i2f (Int) F64)")
+		e.note("int→float conversion is an uninterpreted function")
+		return app("i2f", v)
 	case isFloat(from) && isInt(to):
 		e.decl("fn:f2i", "(declare-fun f2i (F64) Int)")
 		e.note("float→int conversion is an uninterpreted function")
@@ -801,6 +806,8 @@ func (fv *FuncVC) convert(x *ssa.Convert) Term {
 		fv.assume(and(app("<=", lo, t), app("<=", t, hi)))
 		return t
 	case isFloat(from) && isFloat(to):
+		return v
+	case isString(to) && isString(from):
 		return v
 	case isString(to) || isString(from):
 		name := "conv_" + e.mangle(from) + "_" + e.mangle(to)
